@@ -127,7 +127,7 @@ const c10Rule = "compile, then feed every produced FileDescriptorProto (imports 
 func TestC10_Generated(t *testing.T) {
 	ev.Run(t, ev.Spec[c10Case]{ID: "C10", Name: "Generated", Quick: 900, Thorough: 40000, Rule: "generated valid workspaces; " + c10Rule,
 		Gen: func(t *rapid.T) c10Case {
-			ws := gen.GenWorkspace(t, gen.Config{})
+			ws := gen.GenWorkspace(t, gen.Config{CustomOpts: gen.Pct(t, 50, "custom")})
 			return c10Case{Files: ws.PrintAll(), Names: ws.Names(), SrcInfo: gen.Uniform(t, 8, "srcinfo"), Mode: gen.Pick(t, []string{"proto", "proto", "proto-bytes", "desc", "mixed"}, "mode")}
 		},
 		Check: c10Check})
